@@ -220,7 +220,7 @@ pub fn run(ctx: &mut Ctx) {
     }
     // long sequences (thresholds of fast paths, many words)
     for id in ALL_CODECS {
-        let lens = gen::long_lens(ctx.thorough());
+        let lens = gen::long_lens(ctx.thorough(), ctx.seed);
         ctx.forall_lens(&format!("iters_long/{}", id.name()), &lens, |n| (gen::seq_spec_n(id, n), gen::seq_spec(id, 20), vec(any::<u16>(), 0..4)).prop_map(move |(s, second, widths)| Case { codec: id, s, second, widths }), dispatch);
     }
     // bounded-exhaustive: every window (offset, length <= 24 so all widths are walked) of a fixed parent
